@@ -169,8 +169,13 @@ func (pxy *BaseProxy) HandleTCPWorkConnection(workConn net.Conn, m *msg.StartWor
 		if m.DstAddr == "" {
 			m.DstAddr = "127.0.0.1"
 		}
-		srcAddr, _ := net.ResolveTCPAddr("tcp", net.JoinHostPort(m.SrcAddr, strconv.Itoa(int(m.SrcPort))))
-		dstAddr, _ := net.ResolveTCPAddr("tcp", net.JoinHostPort(m.DstAddr, strconv.Itoa(int(m.DstPort))))
+		srcAddr, srcErr := net.ResolveTCPAddr("tcp", net.JoinHostPort(m.SrcAddr, strconv.Itoa(int(m.SrcPort))))
+		dstAddr, dstErr := net.ResolveTCPAddr("tcp", net.JoinHostPort(m.DstAddr, strconv.Itoa(int(m.DstPort))))
+		if srcErr != nil || dstErr != nil {
+			workConn.Close()
+			xl.Errorf("invalid source [%s] or destination [%s] address in start work connection message", m.SrcAddr, m.DstAddr)
+			return
+		}
 		connInfo.SrcAddr = srcAddr
 		connInfo.DstAddr = dstAddr
 	}
